@@ -8,12 +8,16 @@ import (
 	"errors"
 	"net"
 	"sync"
+	"time"
 
 	reuse "github.com/libp2p/go-reuseport"
 
 	"github.com/omec-project/upf-epc/logger"
 	"github.com/omec-project/upf-epc/pfcpiface/metrics"
 )
+
+// pConnShutdownTimeout bounds the time the node waits for its PFCPConns when it is stopped.
+const pConnShutdownTimeout = 30 * time.Second
 
 // PFCPNode represents a PFCP endpoint of the UPF.
 type PFCPNode struct {
@@ -137,33 +141,8 @@ func (node *PFCPNode) Serve() {
 				logger.PfcpLog.Errorln("error closing PFCPNode conn", err)
 			}
 
-			// Clear out the remaining pconn completions
-		clearLoop:
-			for {
-				select {
-				case rAddr, ok := <-node.pConnDone:
-					{
-						if !ok {
-							// channel is closed, break
-							break clearLoop
-						}
-						node.pConns.Delete(rAddr)
-						logger.PfcpLog.Infoln("removed connection to", rAddr)
-					}
-				default:
-					// nothing to read from channel
-					break clearLoop
-				}
-			}
-
-			if len(node.pConnDone) > 0 {
-				for rAddr := range node.pConnDone {
-					node.pConns.Delete(rAddr)
-					logger.PfcpLog.Infoln("removed connection to", rAddr)
-				}
-			}
-
-			close(node.pConnDone)
+			// Wait for the PFCPConns to remove their sessions and report completion
+			node.waitForPFCPConns()
 			logger.PfcpLog.Infoln("done waiting for PFCPConn completions")
 
 			node.upf.Exit()
@@ -171,6 +150,34 @@ func (node *PFCPNode) Serve() {
 	}
 
 	close(node.done)
+}
+
+// waitForPFCPConns waits until every PFCPConn has reported its exit on pConnDone.
+// pConnDone is never closed, because PFCPConns shutting down concurrently still send on it.
+func (node *PFCPNode) waitForPFCPConns() {
+	timeout := time.After(pConnShutdownTimeout)
+
+	for {
+		remaining := 0
+
+		node.pConns.Range(func(_, _ interface{}) bool {
+			remaining++
+			return true
+		})
+
+		if remaining == 0 {
+			return
+		}
+
+		select {
+		case rAddr := <-node.pConnDone:
+			node.pConns.Delete(rAddr)
+			logger.PfcpLog.Infoln("removed connection to", rAddr)
+		case <-timeout:
+			logger.PfcpLog.Warnln("timed out waiting for", remaining, "PFCPConn completions")
+			return
+		}
+	}
 }
 
 func (node *PFCPNode) Stop() {
